@@ -571,6 +571,131 @@ def c16(tier, seed):
     print("%s %s tier=%s: %d inputs enumerated on %d builds, %d violations, %.1fs -> exit %d" % (prop, "HELD" if rc == 0 else "VIOLATED" if rc == 1 else "INCONCLUSIVE", tier, evals, len(variants), len(v.violations), time.time() - t0, rc))
     return rc
 
+# ---- C20 ----------------------------------------------------------------------------------------------------------------------
+OPT_FORMS = ["1", "0", "true", "TRUE", "True", "yes", "no", "on", "off", "ON", "Off", "false", "", "rue", "E;Y", "o", "f",
+             "5", "-1", "+7", "007", "  12", "\t3", "2147483647", "2147483648", "4294967296", "9223372036854775807", "9223372036854775808", "99999999999999999999", "-9223372036854775808", "-99999999999999999999",
+             "1K", "1KiB", "1KB", "1kib", "2M", "2MiB", "2MB", "3G", "3GiB", "3gb", "4T", "4TiB", "1024", "1025", "1023", "100000T", "8388608G", "9007199254740993K", "18014398509481984M",
+             "1Ki", "1KiBx", "1 K", "K", "12abc", "0x10", "1e3", "1.5", "--1", "1-", "1,5", "12 ", "=1", "1=2", "\u00e9", "\u20ac1", "1\u20ac", "-", "+", " ", "tru e", "yes!", "0ff"]
+RISKY_OPTIONS = {"reserve_huge_os_pages", "reserve_huge_os_pages_at", "reserve_os_memory", "use_numa_nodes"}    # numeric values make the process reserve memory at start
+SAFE_FOR_RISKY = ["0", "no", "off", "false", "abc", "1x", "--", "zero"]
+
+def _opts_run(exe, env, mode="values", extra=(), timeout=600):
+    e = dict(env); e.update({"ASAN_OPTIONS": "detect_leaks=0:abort_on_error=0:exitcode=23", "UBSAN_OPTIONS": "print_stacktrace=1:halt_on_error=1:exitcode=24"})
+    return Case("C20-%s-%d" % (mode, abs(hash(tuple(sorted(env.items())))) % 10**9), [exe, "--mode", mode] + list(extra), env=e, timeout=timeout, crash_refutes=["C20"], meta={"variant": os.path.basename(exe).split(".", 1)[1], "mode": mode, "optenv": dict(env)})
+
+def _parse_options(c):
+    for line in c.stdout_tail.splitlines():
+        if line.startswith("VFOPTIONS "):
+            try: return json.loads(line[10:])
+            except ValueError: return None
+    return None
+
+@check("C20")
+def c20(tier, seed):
+    from . import optref
+    t0 = time.time(); prop = "C20"
+    variants = ["rel", "asan"] + (["dbg"] if tier == "thorough" else [])
+    exes = {v: build.static_driver("drv_opts", v) for v in variants}
+    v = Verdict(prop)
+    rnd = random.Random(seed * 31337 + 20)
+    # 1. defaults and names (no environment)
+    base_cases = [_opts_run(exes[x], {}) for x in variants]
+    for c in core.run_cases(base_cases): v.add(c)
+    table = _parse_options(base_cases[0])
+    if not table:
+        print("HARNESS-FAILURE cannot read the option table"); return 2
+    names = [o["name"] for o in table]
+    max_alloc = 2**63 - 1
+    for line in base_cases[0].stdout_tail.splitlines():
+        if line.startswith("VFMAXALLOC "): max_alloc = int(line.split()[1])
+    defaults = {vv: {o["name"]: o["value"] for o in (_parse_options(c) or [])} for vv, c in zip(variants, base_cases)}
+    # 2. value forms: every (option, form) pair, one form per option per process
+    forms = list(OPT_FORMS)
+    ngen = tier_n(tier, 2000, 40000)
+    alphabet = "0123456789KMGTiBb+- \txXeE.tTrRuUyYoOnNfFaAlLsS;=,_"
+    for _ in range(ngen):
+        k = rnd.random()
+        if k < 0.35: s = "".join(rnd.choice(alphabet) for _ in range(rnd.randint(1, 12)))
+        elif k < 0.6: s = str(rnd.choice([rnd.randint(-5, 5000), rnd.randint(0, 2**40), rnd.randint(2**62, 2**66)])) + rnd.choice(["", "", "K", "M", "G", "T", "KiB", "MiB", "GB", "x", " ", "iB", "Ki"])
+        elif k < 0.75: s = rnd.choice(["true", "false", "yes", "no", "on", "off", "1", "0"]) + rnd.choice(["", "", " ", "x", ";", "1"])
+        elif k < 0.9: s = "".join(rnd.choice(alphabet) for _ in range(rnd.randint(50, 80)))           # around the 64 byte limit
+        else: s = "".join(rnd.choice(alphabet + "\u00e9\u20ac") for _ in range(rnd.randint(100, 8000)))  # very long
+        forms.append(s)
+    runs = []
+    nform = len(forms)
+    per_run = len(names)
+    nruns = (nform + 0) if tier == "thorough" else max(len(OPT_FORMS), (nform * 1) // 1)
+    nruns = len(OPT_FORMS) + (nform - len(OPT_FORMS) + per_run - 1) // per_run
+    legacy = {o["name"]: o["legacy"] for o in table}
+    for r in range(nruns):
+        env = {}; expect_src = {}
+        for i, name in enumerate(names):
+            if r < len(OPT_FORMS): f = forms[(i + r) % len(OPT_FORMS)]
+            else:
+                idx = len(OPT_FORMS) + (r - len(OPT_FORMS)) * per_run + i
+                if idx >= nform: continue
+                f = forms[idx]
+            if name in RISKY_OPTIONS: f = SAFE_FOR_RISKY[(i + r) % len(SAFE_FOR_RISKY)]
+            # guarded_min / guarded_max are coupled by design (setting one adjusts the other): only one of them is set per process
+            if (name == "guarded_min" and r % 2 == 0) or (name == "guarded_max" and r % 2 == 1): continue
+            if "\0" in f: continue
+            style = (i + r) % 4
+            var = "MIMALLOC_" + name.upper() if style == 0 else "mimalloc_" + name if style == 1 else "Mimalloc_" + name.capitalize() if style == 2 else None
+            if var is None:
+                if legacy.get(name): var = "MIMALLOC_" + legacy[name].upper()
+                else: var = "MIMALLOC_" + name.upper()
+            env[var] = f; expect_src[name] = f
+        for vv in variants:
+            c = _opts_run(exes[vv], env); c.meta["expect_src"] = expect_src; runs.append(c)
+    pairs = 0; malformed = 0; wellformed = 0; toolong = 0
+    for c in core.run_cases(runs):
+        st = v.add(c)
+        if st != "ok": continue
+        got = _parse_options(c)
+        if got is None:
+            v.harness.append(core.Finding(prop, "harness:no-table", "no option table printed", c, [], "harness")); continue
+        vv = c.meta["variant"]
+        for o in got:
+            name = o["name"]
+            if name not in c.meta["expect_src"]: continue
+            src = c.meta["expect_src"][name]
+            pairs += 1
+            raw = src.encode("utf-8", "surrogateescape")
+            if len(raw) > 64:
+                toolong += 1; continue      # longer than the 64-byte value buffer: only memory safety is judged (the process ran under ASan)
+            exp, ok = optref.expected(defaults[vv].get(name, 0), src if all(ord(ch) < 128 for ch in src) else raw.decode("latin1"), bool(o["kib"]), max_alloc)
+            if ok: wellformed += 1
+            else: malformed += 1
+            if o["value"] != exp:
+                f = core.Finding(prop, "option-value:%s:%s" % (vv, name), "MIMALLOC_%s=%r: mi_option_get returned %d, the documented grammar gives %d (%s value; default %d)" %
+                                 (name.upper(), src, o["value"], exp, "well-formed" if ok else "malformed", defaults[vv].get(name, 0)), c, [prop], "trip")
+                v.violations.append(f)
+    # 3. formatted output, JSON sizes, print functions
+    other = []
+    for vv in variants:
+        other.append(_opts_run(exes[vv], {}, "fmt", ["--seed", case_seed(seed, prop, 1), "--full", int(tier == "thorough")], timeout=3600))
+        other.append(_opts_run(exes[vv], {}, "json"))
+        other.append(_opts_run(exes[vv], {}, "out"))
+        other.append(_opts_run(exes[vv], {"MIMALLOC_VERBOSE": "3", "MIMALLOC_SHOW_STATS": "1", "MIMALLOC_SHOW_ERRORS": "1"}, "out"))
+        other.append(_opts_run(exes[vv], {"MIMALLOC_VERBOSE": "1", "MIMALLOC_SHOW_STATS": "1"}, "json"))
+    for c in core.run_cases(other): v.add(c)
+    allc = base_cases + runs + other
+    cov = {"options_in_table": len(names), "option_value_pairs_checked": pairs, "wellformed_values": wellformed, "malformed_values": malformed, "values_longer_than_64_bytes_memory_safety_only": toolong,
+           "value_forms": len(forms), "processes": len(allc), "formatter_calls": core.sum_field(other, "opts", "format_calls"), "buffer_sizes_tried": core.sum_field(other, "opts", "buffer_sizes"),
+           "set_get_roundtrips": core.sum_field(allc, "opts", "set_get_roundtrips"), "json_buffer_sizes": core.sum_field(other, "opts", "json_sizes"), "output_calls": core.sum_field(other, "opts", "output_calls"),
+           "output_bytes": core.sum_field(other, "opts", "output_bytes"), "variants": variants, "form_samples": OPT_FORMS[:20]}
+    rc = v.report()
+    cov.update({"evaluations": pairs + int(cov["formatter_calls"]) + int(cov["json_buffer_sizes"]), "distinct_nontrivial": len(set(forms)),
+                "rule": "an evaluation = one (option, environment string) pair compared with the reference grammar, or one formatter call into an exactly sized buffer, or one mi_stats_get_json buffer size; "
+                        "distinct_nontrivial = distinct environment strings tried (each on every option position it was rotated to)",
+                "samples": [{"env": dict(list(runs[0].env.items())[:6])}, {"forms": forms[len(OPT_FORMS):len(OPT_FORMS) + 5]}]})
+    core.write_evidence(prop, tier, seed, "exploration", cov, time.time() - t0, len(v.violations),
+                        ["the reference grammar in vf/optref.py is the documented one (booleans accept any substring of the source's lists; values longer than the 64-byte buffer are judged for memory safety only)",
+                         "memory safety is decided by AddressSanitizer/UBSan red zones behind exactly sized libc buffers"])
+    print("%s %s tier=%s seed=%d: %d processes, %d (option,value) pairs, %d violations, %d harness failures, %.1fs -> exit %d" %
+          (prop, "HELD" if rc == 0 else "VIOLATED" if rc == 1 else "INCONCLUSIVE", tier, seed, len(allc), pairs, len(v.violations), len(v.harness), time.time() - t0, rc))
+    return rc
+
 # ---- C13: pairwise covering array over the commit / purge / arena options --------------------------------------------
 OPTION_DOMAINS = [
     ("MIMALLOC_PURGE_DELAY", ["-1", "0", "1", "10"]),
